@@ -45,4 +45,11 @@ def argsort (source : List κ) (trace : List (Nat × Nat)) : Option (List Nat) :
   | some [t] => findIndices source t.inorder
   | _ => none
 
+/-- a second scheme for the same job: every cluster carries the input POSITIONS of its leaves and a merge concatenates them
+(left, then right); nothing has to be recovered from ids afterwards -/
+def argsortPos (n : Nat) (trace : List (Nat × Nat)) : Option (List Nat) :=
+  match cluster trace ((List.range n).map Tree.leaf) with
+  | some [t] => some t.inorder
+  | _ => none
+
 end Hpv.Sorting
